@@ -612,7 +612,8 @@ Proof.
     destruct (c_loop c) as [| |p|from to|from to|k from to|k hs|k hs nh|k hs|oto lst|] eqn:Elp.
     + brk; cbn; rewrite ?Heqr; exact Hri.
     + brk; cbn; rewrite ?Heqr; exact Hri.
-    + brk; cbn; rewrite ?Heqr; exact Hri.
+    + destruct (_ <=? _); [|cbn; exact Hri].
+      destruct (remove_upto_spec (h_height (c_cache c)) _ Hri) as (rs' & -> & Hri' & _). cbn. exact Hri'.
     + destruct (ranges_first_spec _ Hri) as (Hri' & _). destruct (ranges_first (c_pend c)) eqn:Ef; cbn; exact Hri'.
     + brk; cbn; rewrite ?Heqr; exact Hri.
     + brk; cbn; rewrite ?Heqr; exact Hri.
@@ -752,7 +753,8 @@ Proof.
   destruct (c_loop c) as [| |p|from to|from to|k from to|k hs|k hs nh|k hs|oto lst|] eqn:Elp.
   - destruct (c_trig c); (frm c HI Elp).
   - destruct (ranges_head (c_pend c)); (frm c HI Elp).
-  - destruct (_ <=? _); (frm c HI Elp).
+  - destruct (_ <=? _); [|frm c HI Elp].
+    destruct (ranges_remove_upto (h_height (c_cache c)) (c_pend c)); frm c HI Elp.
   - destruct (ranges_first (c_pend c)); (frm c HI Elp).
   - destruct (c_pend c) as [|r t] eqn:EP; [frm c HI Elp|].
     destruct (range_get to r) as [[|h0 g]|] eqn:Eg; [frm c HI Elp| |frm c HI Elp].
@@ -1200,4 +1202,313 @@ Lemma provenance_run drift tv (tail : N) (a : hdr) (l : list hdr) (es : list eve
 Proof.
   intros Hc Hk Ha Hw c0.
   exact (provenance drift tv tail es c0 (Inv_init tail a l Hc Hk Ha) Hw y).
+Qed.
+
+(** ** no head is left behind, for every schedule (after /repo 77026ec):
+    whenever something is pending while the loop is idle, the trigger is set,
+    about to be set by a learner call that has just done pending.Add, or the
+    last attempt failed.  Hence at quiescence without error nothing is pending:
+    the subjective head is the shim's store head. *)
+Ltac brk := repeat match goal with
+                   | |- context [match ?x with _ => _ end] => destruct x eqn:?
+                   end.
+
+Section inv3.
+Variables (drift : Z) (tv : hdr -> hdr -> tvres) (tail : N).
+
+Definition sl5ex (T : list tpc) : Prop := exists j mu res x rest, nth_error T j = Some (TRun mu res x SL5 rest).
+Definition woke (c : cfg) : Prop := c_trig c = true \/ sl5ex (c_thr c).
+Definition tinv (c : cfg) (T : N) : Prop := forall p, In p (ranges_all (c_pend c)) -> T < h_height p -> woke c.
+Definition pwoke (c : cfg) : Prop := ranges_all (c_pend c) <> [] -> woke c.
+Definition fne (P : ranges) : Prop := match P with [] => True | r :: _ => r_hdrs r <> [] end.
+
+Definition rk_q (c : cfg) (k : rk) (to : N) : Prop :=
+  match k with KGap _ oto => tinv c oto | KFin => tinv c to /\ pwoke c end.
+Definition ak_q (c : cfg) (k : ak) : Prop :=
+  match k with AKReq k' to => rk_q c k' to | AKCached oto => tinv c oto end.
+
+Definition qpc (c : cfg) : Prop :=
+  match c_loop c with
+  | LIdle => ranges_all (c_pend c) <> [] -> woke c \/ ss_err (c_state c) <> None
+  | LSync | LPanic => True
+  | LSync1 p => tinv c (h_height p)
+  | LFirst _ to => tinv c to
+  | LGet _ to => tinv c to /\ fne (c_pend c)
+  | LReq k _ to => rk_q c k to
+  | LApp0 k _ | LApp1 k _ _ | LApp2 k _ => ak_q c k
+  | LRem oto _ => tinv c oto
+  end.
+
+Lemma fne_add x P : fne P -> fne (ranges_add x P).
+Proof.
+  unfold fne. destruct P as [|r t].
+  - intros _. unfold ranges_add. cbn. discriminate.
+  - intros Hne. destruct (ranges_add_first x r t) as (r' & t' & -> & _ & ext & Er' & _). rewrite Er'.
+    destruct (r_hdrs r); [contradiction|discriminate].
+Qed.
+
+(** predicates that only read pending / trigger / learner calls *)
+Lemma woke_ext c c' : c_trig c' = c_trig c -> c_thr c' = c_thr c -> woke c -> woke c'.
+Proof. unfold woke. intros -> ->. auto. Qed.
+
+Lemma tinv_ext c c' T :
+  c_trig c' = c_trig c -> c_thr c' = c_thr c -> (forall p, In p (ranges_all (c_pend c')) -> In p (ranges_all (c_pend c))) ->
+  tinv c T -> tinv c' T.
+Proof. intros E1 E2 Hs H p Hp Hlt. apply (woke_ext c c' E1 E2). apply (H p (Hs p Hp) Hlt). Qed.
+
+Lemma pwoke_ext c c' :
+  c_trig c' = c_trig c -> c_thr c' = c_thr c -> (forall p, In p (ranges_all (c_pend c')) -> In p (ranges_all (c_pend c))) ->
+  pwoke c -> pwoke c'.
+Proof.
+  intros E1 E2 Hs H Hne. apply (woke_ext c c' E1 E2). apply H. intros E0.
+  destruct (ranges_all (c_pend c')) as [|y l] eqn:Ey; [contradiction|]. specialize (Hs y (or_introl eq_refl)). rewrite E0 in Hs. destruct Hs.
+Qed.
+
+Lemma rk_q_ext c c' k to :
+  c_trig c' = c_trig c -> c_thr c' = c_thr c -> (forall p, In p (ranges_all (c_pend c')) -> In p (ranges_all (c_pend c))) ->
+  rk_q c k to -> rk_q c' k to.
+Proof.
+  intros E1 E2 Hs. destruct k; cbn; [apply tinv_ext; assumption|]. intros [A B]. split; [eapply tinv_ext; eassumption|eapply pwoke_ext; eassumption].
+Qed.
+
+Lemma ak_q_ext c c' k :
+  c_trig c' = c_trig c -> c_thr c' = c_thr c -> (forall p, In p (ranges_all (c_pend c')) -> In p (ranges_all (c_pend c))) ->
+  ak_q c k -> ak_q c' k.
+Proof. intros E1 E2 Hs. destruct k; cbn; [apply rk_q_ext; assumption|apply tinv_ext; assumption]. Qed.
+
+Lemma tinv_pwoke c T : tinv c T -> (forall p, In p (ranges_all (c_pend c)) -> T < h_height p) -> pwoke c.
+Proof.
+  intros H Hall Hne. destruct (ranges_all (c_pend c)) as [|y l] eqn:Ey; [contradiction|].
+  assert (Hy : In y (ranges_all (c_pend c))) by (rewrite Ey; left; reflexivity).
+  apply (H y Hy). apply Hall. left. reflexivity.
+Qed.
+
+Lemma q_lstep a c : Inv tail c -> qpc c -> qpc (l_step a c).
+Proof.
+  intros HI HQ. pose proof (i_rinv tail c HI) as Hri. unfold qpc in HQ.
+  unfold l_step, l_finish, after_req, after_app.
+  destruct (c_loop c) as [| |p|from to|from to|k from to|k hs|k hs nh|k hs|oto lst|] eqn:Elp.
+  - destruct (c_trig c) eqn:Et; unfold qpc; cbn; [exact I|rewrite Elp; exact HQ].
+  - pose proof (rinv_head _ Hri) as Hh. destruct (ranges_head (c_pend c)) as [p|] eqn:Ep; unfold qpc; cbn.
+    + destruct Hh as [_ Hmax]. intros q Hq Hlt. specialize (Hmax q Hq). lia.
+    + intros Hne. contradiction.
+  - destruct (N.leb_spec (h_height p) (h_height (c_cache c))) as [Hle|Hgt].
+    + destruct (remove_upto_spec (h_height (c_cache c)) _ Hri) as (rs' & -> & _ & Hm). unfold qpc. cbn.
+      intros Hne. left. destruct (ranges_all rs') as [|y l] eqn:Ey; [contradiction|].
+      assert (Hy : In y (y :: l)) by (left; reflexivity). apply Hm in Hy. destruct Hy as [Hy Hlt].
+      apply (woke_ext c); [reflexivity|reflexivity|]. apply (HQ y Hy). lia.
+    + unfold qpc. cbn. apply (tinv_ext c); try reflexivity; [auto|exact HQ].
+  - destruct (ranges_first_spec _ Hri) as (_ & Eall & _ & Hfirst).
+    destruct (ranges_first (c_pend c)) as [|r t] eqn:Ef; unfold qpc; cbn.
+    + split; [intros q []|intros Hne; contradiction].
+    + split; [|apply Hfirst]. intros q Hq Hlt. apply (woke_ext c); try reflexivity. apply (HQ q); [rewrite <- Eall; exact Hq|exact Hlt].
+  - destruct HQ as [HT Hfn]. destruct (c_pend c) as [|r t] eqn:EP.
+    + unfold qpc, rk_q, tinv, pwoke. cbn. rewrite EP. split; [intros q []|intros Hne; contradiction].
+    + cbn [fne] in Hfn. destruct (first_run _ r t Hri eq_refl Hfn) as (a0 & l0 & Ea & Hok & Hne).
+      destruct (get_remove_spec r a0 l0 Ea Hok to) as (g & r' & Hg & _ & Hsp & Hle & Hgt & _). rewrite Hg.
+      destruct g as [|h0 g'].
+      * (* nothing at or below the target is left: whatever is pending came later *)
+        unfold qpc. cbn.
+        assert (HT' : tinv (c <| c_loop := LReq KFin from to |>) to) by (apply (tinv_ext c); try reflexivity; [auto|exact HT]).
+        split; [exact HT'|]. apply (tinv_pwoke _ to HT'). cbn. intros q Hq. rewrite EP in Hq.
+        cbn [app] in Hsp. cbn in Hq. apply in_app_or in Hq. destruct Hq as [Hq|Hq]; [apply Hgt; rewrite <- Hsp; exact Hq|].
+        pose proof (ne_inv_lo _ _ Hne q Hq) as Hlo.
+        assert (Ha : In a0 (r_hdrs r')) by (rewrite <- Hsp, Ea; left; reflexivity). specialize (Hgt a0 Ha).
+        destruct Hok as (Hc & _ & _). rewrite Ea in Hc. pose proof (consec_bounds a0 l0 Hc _ (last_in l0 a0)). lia.
+      * destruct (_ =? _); unfold qpc; cbn; (apply (tinv_ext c); try reflexivity; [auto|exact HT]).
+  - destruct (_ <? _).
+    + destruct a as [|[|x l]]; unfold qpc; cbn; try (intros _; right; discriminate).
+      destruct (_ =? _); cbn; [|intros _; right; discriminate].
+      apply (rk_q_ext c); try reflexivity; [auto|exact HQ].
+    + destruct k as [cached oto|]; unfold qpc; cbn.
+      * apply (tinv_ext c); try reflexivity; [auto|exact HQ].
+      * destruct HQ as [_ HP]. intros Hne. left. apply (woke_ext c); try reflexivity. apply HP. exact Hne.
+  - destruct (shim_check (c_cache c) hs); unfold qpc; cbn; try (intros _; right; discriminate);
+      try (apply (ak_q_ext c); try reflexivity; [auto|exact HQ]).
+    destruct k as [k' to|oto]; cbn; [apply (rk_q_ext c); try reflexivity; [auto|exact HQ]|apply (tinv_ext c); try reflexivity; [auto|exact HQ]].
+  - unfold qpc. cbn. apply (ak_q_ext c); try reflexivity; [auto|exact HQ].
+  - destruct k as [k' to|oto]; unfold qpc; cbn; [apply (rk_q_ext c); try reflexivity; [auto|exact HQ]|apply (tinv_ext c); try reflexivity; [auto|exact HQ]].
+  - destruct (c_pend c) as [|r t] eqn:EP.
+    + unfold qpc. cbn. apply (tinv_ext c); try reflexivity; [auto|exact HQ].
+    + destruct (range_remove_total oto r) as (r' & Er). rewrite Er. unfold qpc. cbn.
+      apply (tinv_ext c); try reflexivity; [|exact HQ]. cbn. rewrite EP. intros q Hq. cbn in Hq |- *.
+      apply in_app_or in Hq. apply in_or_app. destruct Hq as [Hq|Hq]; [left; eapply range_remove_sub; eassumption|right; exact Hq].
+  - unfold qpc. rewrite Elp. exact I.
+Qed.
+
+
+Lemma q_mono c c' :
+  c_loop c' = c_loop c -> c_state c' = c_state c -> (woke c -> woke c') ->
+  (forall p, In p (ranges_all (c_pend c')) -> In p (ranges_all (c_pend c)) \/ woke c') ->
+  (fne (c_pend c) -> fne (c_pend c')) ->
+  qpc c -> qpc c'.
+Proof.
+  intros El Es Hw Hp Hf HQ.
+  assert (HT : forall T, tinv c T -> tinv c' T).
+  { intros T H p Hp' Hlt. destruct (Hp p Hp') as [Hin|Hwk]; [apply Hw; apply (H p Hin Hlt)|exact Hwk]. }
+  assert (HP : pwoke c -> pwoke c').
+  { intros H Hne. destruct (ranges_all (c_pend c')) as [|y l] eqn:Ey; [contradiction|].
+    destruct (Hp y (or_introl eq_refl)) as [Hin|Hwk]; [|exact Hwk]. apply Hw. apply H. intros E0. rewrite E0 in Hin. destruct Hin. }
+  assert (HR : forall k to, rk_q c k to -> rk_q c' k to).
+  { intros k to. destruct k; cbn; [apply HT|]. intros [A B]. split; [apply HT; exact A|apply HP; exact B]. }
+  assert (HA : forall k, ak_q c k -> ak_q c' k).
+  { intros k. destruct k; cbn; [apply HR|apply HT]. }
+  unfold qpc in *. rewrite El, Es.
+  destruct (c_loop c) as [| |p|from to|from to|k from to|k hs|k hs nh|k hs|oto lst|]; auto.
+  - intros Hne. destruct (ranges_all (c_pend c')) as [|y l] eqn:Ey; [contradiction|].
+    destruct (Hp y (or_introl eq_refl)) as [Hin|Hwk]; [|left; exact Hwk].
+    destruct HQ as [H|H]; [intros E0; rewrite E0 in Hin; destruct Hin|left; apply Hw; exact H|right; exact H].
+  - destruct HQ as [A B]. split; [apply HT; exact A|apply Hf; exact B].
+Qed.
+
+Lemma woke_upd c i t t' P' tr' :
+  nth_error (c_thr c) i = Some t ->
+  (forall mu res x rest, t = TRun mu res x SL5 rest -> tr' = true) ->
+  (c_trig c = true -> tr' = true) ->
+  woke c -> woke (c <| c_pend := P' |> <| c_trig := tr' |> <| c_thr ::= upd_nth i t' |>).
+Proof.
+  intros En H5 Ht [Hw|(j & mu & res & x & rest & Hj)]; unfold woke; cbn.
+  - left. apply Ht. exact Hw.
+  - destruct (Nat.eq_dec j i) as [->|Hne].
+    + left. rewrite En in Hj. injection Hj as ->. eapply H5. reflexivity.
+    + right. exists j, mu, res, x, rest. clear -Hj Hne. revert i j Hj Hne. generalize (c_thr c). induction l as [|t0 T IH]; intros i j Hj Hne; [destruct j; discriminate|].
+      destruct i, j; cbn in *; try congruence; auto.
+Qed.
+
+
+Lemma nth_upd_other {A} (l : list A) i j a : j <> i -> nth_error (upd_nth i a l) j = nth_error l j.
+Proof.
+  revert i j. induction l as [|x l IH]; intros i j Hne; [destruct i; reflexivity|].
+  destruct i, j; cbn; try congruence; auto.
+Qed.
+
+(** what a learner step touches *)
+Lemma t_step_frame i c :
+  c_loop (t_step drift tv i c) = c_loop c /\ c_state (t_step drift tv i c) = c_state c /\
+  (c_trig c = true -> c_trig (t_step drift tv i c) = true) /\
+  (forall j, j <> i -> nth_error (c_thr (t_step drift tv i c)) j = nth_error (c_thr c) j).
+Proof.
+  unfold t_step. destruct (nth_error (c_thr c) i) as [t|]; [|auto].
+  unfold t_body, enter, t_next, set_thr.
+  destruct t as [h now b|h now b|a|a|sbj a|mu res x st rest|r].
+  - destruct (c_mu c); [auto|]. cbn. destruct (ranges_head _).
+    + destruct (verdict_shape drift tv now b h0 h) as [->|(res & w & r & ->)]; cbn; repeat split; auto; intros; apply nth_upd_other; assumption.
+    + cbn; repeat split; auto; intros; apply nth_upd_other; assumption.
+  - destruct (verdict_shape drift tv now b (c_cache c) h) as [->|(res & w & r & ->)]; cbn; repeat split; auto; intros; apply nth_upd_other; assumption.
+  - destruct (ranges_head _); cbn; repeat split; auto; intros; apply nth_upd_other; assumption.
+  - cbn; repeat split; auto; intros; apply nth_upd_other; assumption.
+  - brk; cbn; repeat split; auto; intros; apply nth_upd_other; assumption.
+  - destruct st; brk; cbn; repeat split; auto; intros; apply nth_upd_other; assumption.
+  - auto.
+Qed.
+
+Lemma t_step_sl5 i c mu res x rest :
+  nth_error (c_thr c) i = Some (TRun mu res x SL5 rest) -> c_trig (t_step drift tv i c) = true.
+Proof. intros En. unfold t_step. rewrite En. unfold t_body, t_next, set_thr. destruct rest; [destruct mu|]; reflexivity. Qed.
+
+Lemma t_step_pend i c :
+  c_pend (t_step drift tv i c) = c_pend c \/
+  exists mu res x rest, c_pend (t_step drift tv i c) = ranges_add x (c_pend c) /\
+                        nth_error (c_thr (t_step drift tv i c)) i = Some (TRun mu res x SL5 rest).
+Proof.
+  unfold t_step. destruct (nth_error (c_thr c) i) as [t|] eqn:En; [|left; reflexivity].
+  assert (Hi : (i < length (c_thr c))%nat) by (apply nth_error_Some; congruence).
+  unfold t_body, enter, t_next, set_thr.
+  destruct t as [h now b|h now b|a|a|sbj a|mu res x st rest|r].
+  - destruct (c_mu c); [left; reflexivity|]. cbn. destruct (ranges_head _); [|left; reflexivity].
+    destruct (verdict_shape drift tv now b h0 h) as [->|(res & w & r & ->)]; left; reflexivity.
+  - destruct (verdict_shape drift tv now b (c_cache c) h) as [->|(res & w & r & ->)]; left; reflexivity.
+  - destruct (ranges_head _); left; reflexivity.
+  - left; reflexivity.
+  - brk; left; reflexivity.
+  - destruct st; brk; cbn; try (left; reflexivity).
+    right. exists mu, res, x, rest. split; [reflexivity|]. apply nth_upd_same. exact Hi.
+  - left; reflexivity.
+Qed.
+
+Lemma q_tstep i c : qpc c -> qpc (t_step drift tv i c).
+Proof.
+  intros HQ. destruct (t_step_frame i c) as (El & Es & Ht & Ho).
+  assert (Hw : woke c -> woke (t_step drift tv i c)).
+  { intros [Hw|(j & mu & res & x & rest & Hj)]; [left; apply Ht; exact Hw|].
+    destruct (Nat.eq_dec j i) as [->|Hne].
+    - left. eapply t_step_sl5. exact Hj.
+    - right. exists j, mu, res, x, rest. rewrite (Ho j Hne). exact Hj. }
+  apply (q_mono c); auto.
+  - intros p Hp. destruct (t_step_pend i c) as [E|(mu & res & x & rest & E & En)].
+    + left. rewrite <- E. exact Hp.
+    + rewrite E in Hp. apply ranges_add_sub in Hp. destruct Hp as [->|Hp]; [|left; exact Hp].
+      right. right. exists i, mu, res, x, rest. exact En.
+  - destruct (t_step_pend i c) as [->|(mu & res & x & rest & -> & _)]; [auto|apply fne_add].
+Qed.
+
+Theorem q_step c e : Inv tail c -> qpc c -> qpc (step drift tv c e).
+Proof.
+  intros HI HQ. destruct e as [h now b|a|a|i]; cbn [step].
+  - apply (q_mono c); auto. intros [Hw|(j & mu & res & x & rest & Hj)]; [left; exact Hw|right].
+    exists j, mu, res, x, rest. cbn. rewrite nth_error_app1; [exact Hj|apply nth_error_Some; congruence].
+  - apply (q_mono c); auto. intros [Hw|(j & mu & res & x & rest & Hj)]; [left; exact Hw|right].
+    exists j, mu, res, x, rest. cbn. rewrite nth_error_app1; [exact Hj|apply nth_error_Some; congruence].
+  - apply q_lstep; assumption.
+  - apply q_tstep; assumption.
+Qed.
+
+Theorem q_run es : forall c, Inv tail c -> Forall (wf_event tail) es -> qpc c -> qpc (run drift tv c es).
+Proof.
+  induction es as [|e es IH]; intros c HI Hw HQ; [exact HQ|].
+  inversion Hw; subst. cbn [run fold_left]. apply IH; [apply Inv_step; assumption|assumption|apply q_step; assumption].
+Qed.
+
+(** quiescence of the whole Syncer: the loop idle, no trigger token, every learner call returned *)
+Definition all_quiet (c : cfg) : Prop :=
+  c_loop c = LIdle /\ c_trig c = false /\ Forall (fun t => exists r, t = TDone r) (c_thr c).
+
+Theorem quiet_nothing_pending c :
+  qpc c -> all_quiet c -> ss_err (c_state c) = None ->
+  ranges_all (c_pend c) = [] /\ local_head c = c_cache c.
+Proof.
+  intros HQ (El & Et & Hth) He. unfold qpc in HQ. rewrite El in HQ.
+  assert (Hnw : ~ woke c).
+  { intros [Hw|(j & mu & res & x & rest & Hj)]; [congruence|].
+    pose proof (proj1 (Forall_forall _ _) Hth _ (nth_error_In _ _ Hj)) as (r & Hr). discriminate. }
+  assert (EA : ranges_all (c_pend c) = []).
+  { destruct (ranges_all (c_pend c)) as [|y l] eqn:Ey; [reflexivity|exfalso].
+    destruct HQ as [H|H]; [discriminate|exact (Hnw H)|exact (H He)]. }
+  split; [exact EA|]. unfold local_head.
+  assert (Hh : ranges_head (c_pend c) = None).
+  { unfold ranges_head. destruct (last_opt (c_pend c)) as [r|] eqn:E; [|reflexivity].
+    apply last_opt_in in E. unfold range_head.
+    assert (Hr : r_hdrs r = []).
+    { unfold ranges_all in EA. destruct (r_hdrs r) as [|x l] eqn:Er; [reflexivity|exfalso].
+      assert (Hx : In x (flat_map r_hdrs (c_pend c))) by (apply in_flat_map; exists r; split; [exact E|rewrite Er; left; reflexivity]).
+      rewrite EA in Hx. destruct Hx. }
+    rewrite Hr. reflexivity. }
+  rewrite Hh. reflexivity.
+Qed.
+
+End inv3.
+
+(** over the initial configuration *)
+Lemma quiet_run drift tv (tail : N) (a : hdr) (l : list hdr) (es : list event) :
+  consec (a :: l) -> Forall hok (a :: l) -> h_height a = tail ->
+  Forall (wf_event tail) es ->
+  let c := run drift tv (init_cfg tail (a :: l)) es in
+  all_quiet c -> ss_err (c_state c) = None ->
+  ranges_all (c_pend c) = [] /\ local_head c = c_cache c /\
+  tail <= h_height (c_cache c) <= rs_head (c_store c).
+Proof.
+  intros Hc Hk Ha Hw c Hq He.
+  pose proof (Inv_init tail a l Hc Hk Ha) as HI0.
+  assert (HQ0 : qpc (init_cfg tail (a :: l))) by (unfold qpc, init_cfg; cbn; intros Hne; contradiction).
+  pose proof (Inv_run drift tv tail es _ HI0 Hw) as HI. pose proof (q_run drift tv tail es _ HI0 Hw HQ0) as HQ. fold c in HI, HQ.
+  destruct (quiet_nothing_pending c HQ Hq He) as [E1 E2]. split; [exact E1|]. split; [exact E2|].
+  destruct (store_contiguous tail c HI) as (_ & _ & _ & _ & Hx & Hge). split; [exact Hge|].
+  (* nothing reserved at quiescence: the cache height is a stored height *)
+  destruct Hq as (El & _ & Hth).
+  assert (Hres : reserved c = []).
+  { unfold reserved. rewrite El. cbn. clear -Hth. induction Hth as [|t T (r & ->) HT IH]; [reflexivity|]. cbn. exact IH. }
+  pose proof (i_cache tail c HI) as Hin. apply in_hts in Hin. rewrite El in Hin. cbn in Hin.
+  destruct Hin as [Hin|[[]|Hin]].
+  - apply (Hx Hres) in Hin. lia.
+  - unfold reserved in Hres. rewrite El in Hres. cbn in Hres. rewrite Hres in Hin. destruct Hin.
 Qed.
